@@ -13,7 +13,9 @@ import common
 from common import Ctx, Finding, Outcome
 
 PROPERTY = "C03"
-LEAN_TARGETS = ["QcelVerif.Props.C03", "QcelVerif.Driver.C03"]
+LEAN_TARGETS = ["QcelVerif.Props.C03", "QcelVerif.Model.UnitText", "QcelVerif.Gen.UnitNames", "QcelVerif.Lemmas.UnitNamesChk",
+                "QcelVerif.Props.C03NamesA", "QcelVerif.Props.C03NamesB", "QcelVerif.Props.C03NamesC", "QcelVerif.Props.C03NamesD",
+                "QcelVerif.Props.C03NamesE", "QcelVerif.Props.C03Text", "QcelVerif.Driver.C03"]
 DRIVER = "QcelVerif/Driver/C03.lean"
 THEOREMS = [
     ("QcelVerif.Units.mag_ne_zero", "positive CODATA constants and non-zero numeric prefactors give a non-zero SI magnitude for every expression (discharges the hypotheses below)"),
@@ -34,23 +36,48 @@ THEOREMS = [
     ("QcelVerif.Units.bridge_prefixed_source_2014", "KNOWN DEFECT on the regenerated 2014 data: (MHz->hartree)*(hartree->MHz) is within 3e-8 of 10^6, not of 1"),
     ("QcelVerif.Units.bridge_two_hop_counterexample", "KNOWN DEFECT, code model: Hz -> kg raises DimensionalityError and wavenumber -> Hz raises UndefinedUnitError although the SI/physics model returns a number"),
     ("QcelVerif.Units.bridge_compound_source_counterexample", "KNOWN DEFECT, code model: kg*m^2/s^2 -> Hz raises DimensionalityError although it is an energy"),
+    # ---- text level (Model/UnitText.lean; names regenerated from the live registry into Gen/UnitNames.lean)
+    ("QcelVerif.Units.Text.registry_tree_sorted", "the regenerated table of the registry's unit keys is a search tree, so the model's lookup is membership in that key set"),
+    ("QcelVerif.Units.Text.spellings_resolve", "every listed spelling ({long, symbol prefix} x {long names, plurals, symbols}; every SI prefix on every table unit; 8869 texts) that is not one of the eight collisions resolves — by pint's rule (exact key, prefixes in registry order, plural suffix, de-duplication, first candidate) over the regenerated name set — to exactly the prefix and unit it was written for"),
+    ("QcelVerif.Units.Text.spelling_collisions", "the eight collisions (fm, nmi, au, dau, amps, damps, hbar, hbars) are listed spellings, the rule picks the stated other registry unit (fermi, nautical_mile, astronomical_unit, deciastronomical_unit, attometer_per_second, decameter_per_second, dirac_constant) and not the table unit"),
+    ("QcelVerif.Units.Text.canon_names_resolve", "the canonical spelling (long prefix + canonical unit name) of every SI prefix on every table unit reads back as that prefix and unit"),
+    ("QcelVerif.Units.Text.conv_self_text", "conversion_factor(s, s) = 1 for every text s the front end reads (non-zero magnitude)"),
+    ("QcelVerif.Units.Text.conv_swap_text", "texts of the same dimension: factor(sa, sb) * factor(sb, sa) = 1"),
+    ("QcelVerif.Units.Text.conv_chain_text", "texts of the same dimension: factor(sa, sb) * factor(sb, sc) = factor(sa, sc)"),
+    ("QcelVerif.Units.Text.conv_dim_mismatch_text", "texts of different dimensions: DimensionalityError, never a number (SI reading)"),
+    ("QcelVerif.Units.Text.conv_quantity_prefactor", "Quantity arguments p*parse(sa), q*parse(sb): the factor is p/q times the factor of the two texts (errors stay errors)"),
+    ("QcelVerif.Units.Text.malformed_source_refused", "a source text the front end refuses (syntax, unclosed parenthesis, empty group, unknown name) makes conversion_factor raise that error whatever the target is"),
+    ("QcelVerif.Units.Text.malformed_target_refused", "a target text the front end refuses makes conversion_factor raise that error when the source text is read"),
+    ("QcelVerif.Units.Text.convImpl_text_same_dim", "code model on texts = SI model on texts whenever the code's parser reads both texts as they are meant and the dimensions agree"),
+    ("QcelVerif.Units.Text.parseImpl_eq_parseText_of_noJuxtaposition", "pint's evaluation of an expression tree equals its meaning for every tree without a juxtaposition node (any names, any resolver)"),
+    ("QcelVerif.Units.Text.decimal_quantity_typeError", "a Quantity with a Decimal magnitude on either side is TypeError in conversion_factor (factor *= Decimal)"),
+    ("QcelVerif.Units.Text.non_unit_objects", "two arguments that are neither str, Quantity nor Unit give factor 1 (both become None in ureg.convert)"),
+    ("QcelVerif.Units.Text.implicit_mul_drops_factor_counterexample", "KNOWN DEFECT, code model on the regenerated data: conversion_factor('2 (3 m)', 'm') = 2 while the text means 6; '2 * (3 m)' gives 6"),
 ]
 TRUSTED_BASE = [
     "Lean 4.33 kernel; axioms per theorem audited on every run (subset of propext, Classical.choice, Quot.sound)",
     "translator gen_units_codata in harness/c03.py (ast.literal_eval of qcelemental/data/nist_201{4,8}_codata.py -> exact rationals in lean/QcelVerif/Gen/UnitsCodata.lean)",
-    "hand-written SI unit table (Model/Units.lean baseMag/baseDim) — also written independently in Python (harness/c03.py) and the two are compared exactly on every case",
+    "translator gen_unit_names in harness/c03.py: the key set of ureg._units with each key's canonical name and ureg._prefixes in order, read from a fresh PhysicalConstantsContext (pint default_en.txt + the definitions of ureg.py) -> packed naturals in lean/QcelVerif/Gen/UnitNames.lean (ASCII keys; the registries of the two CODATA sets must define the same names); every name the runs touch is also resolved by the implementation (ureg.get_name) and compared with the Lean resolver",
+    "hand-written SI unit table (Model/Units.lean baseMag/baseDim) — also written independently in Python (harness/c03.py) and the two are compared exactly on every case; the table of spellings (Model/UnitText.lean baseLongs/baseSyms/siPrefixes) is compared row by row with the one in harness/c03.py",
     "hand-written model convImpl of context.py:278-331 + ureg.py:131-193 + pint's UnitsContainer/context path, tied by differential correspondence at relative 1e-12",
-    "pint's expression parser, identifier/prefix resolution, registry and float evaluation (third party; inside the differential check, not modelled as strings)",
+    "hand-written model of the text front end (Model/UnitText.lean): string_preprocessor's ^ -> **, Python's tokenizer on the alphabet [A-Za-z0-9_ .+-*/^()] and blank, its bracket counter, pint_eval._build_eval_tree (transcribed branch by branch), EvalTreeNode.evaluate with _eval_implicit_mul, get_name/parse_unit_name/_dedup_candidates, and conversion_factor's handling of str / Quantity / Decimal-Quantity / Unit / other arguments — tied by differential correspondence on the STRINGS: the tree the model reads must equal the tree the generator wrote (exactly), values at relative 1e-12, error classes equal",
+    "pint's registry contents, context graph and float evaluation (third party; inside the differential check)",
     "harness/c03.py generators and the Python oracle",
 ]
 ASSUMPTIONS = [
     "unit names are those of the table in harness/c03.py (BASES) with the 24 SI prefixes; offset units (degC, degF), non-integer or zero powers and non-ASCII spellings are outside the model and not generated",
     "the name test of _find_nist_unit is modelled structurally (base is one of NIST's eight units, or kilo+gram); exercised for every prefix on every table unit",
     "lru_cache is treated as transparent (every call is also compared on a fresh PhysicalConstantsContext in the thorough tier)",
+    "text front end: the model refuses as 'unsupported' (and the generators never write) characters outside [A-Za-z0-9_ .+-*/^()] and blank (tab, comma, %, unicode), //, %, binary + and -, exponents that are not an integer literal under signs/parentheses, a zero exponent, '_' or '.' directly after a number, a number with an exponent part directly followed by j/J (Python reads an imaginary literal: ValueError), the words per/squared/cubed/cubic/square/sq and dimensionless/inf/infinity/nan, registry units outside the table, more than 100 nested operators",
+    "pint caches every prefixed unit it has resolved as a new registry key, so a doubly prefixed name ('kilokilometer') is refused by a fresh registry and accepted after 'km' was used once; the name set is exported from a fresh registry and doubly prefixed names are not generated (single prefixes resolve identically in both states — compared on every name)",
+    "a non-unit object against a dimensionless unit-like argument is not modelled (pint's outcome depends on the side)",
+    "parse(render e) = e for every expression is NOT a theorem: the name half is (spellings_resolve, canon_names_resolve), the tokenizer/tree half is kernel-tested on concrete texts and tied differentially on every generated text",
 ]
 RULE = (
     "a case = (CODATA set, source AST, target AST), ASTs over {numeric prefactor, prefixed table unit, product, quotient, integer power}, "
-    "rendered to a string for conversion_factor (random alias/prefix spelling, minimal parentheses) and sent as an AST to the Lean driver. "
+    "rendered to a STRING with random spelling (alias, symbol, plural, either prefix form; scientific notation / trailing point / leading point for numbers; "
+    "'*', blank or direct juxtaposition; '/' ; '**' or '^' with blanks; exponents as n, +n, (n), -n, (-n), (- n); redundant parentheses; blanks around) — "
+    "the two strings go to conversion_factor AND to the Lean driver, which parses them itself; the tree it reads must equal the generator's AST. "
     "Blocks: P every SI prefix on every table unit (both directions against the bare unit); S all ordered pairs of the per-dimension seed corpus "
     "(24 dimension classes incl. the 19 au_* units) with randomly decorated compounds; B every ordered pair of the bridged seed corpus across the six "
     "bridged dimensions (plus every prefix on every bridged base as source in the thorough tier); Rl for each CODATA set each of the 17 published "
@@ -58,15 +85,24 @@ RULE = (
     "NIST-named source in every spelling, with numeric prefactors ('2*eV', '2 eV', '2 * (eV)') and per mole, against the bare target and against every "
     "SI prefix on every target unit of that dimension (5 sampled per source form in the quick tier, all in the thorough tier), each judged against the "
     "physics at the tolerance of its set; U unrelated dimensions; T sampled triples; "
-    "Q Quantity-typed arguments, Datum.to_units, covalentradii.get(units=). A case is distinct by (set, rendered source, rendered target) and counted "
-    "non-trivial unless source and target render to the same string."
+    "Q Quantity-typed arguments, Datum.to_units, covalentradii.get(units=); "
+    "SP the Lean spelling table row by row against this file's; N listed spellings (1500 sampled / all 8861 in the thorough tier): ureg.get_name against the "
+    "Lean resolver and conversion to the bare unit; NC the eight collisions on the implementation; X malformed texts (unknown names inside valid "
+    "expressions, dangling and doubled operators, unbalanced and empty parentheses; source side, target side, both): same error class; "
+    "J a number juxtaposed to a parenthesised quantity with its own factor (known defect class) next to the explicit-'*' control; "
+    "A argument kinds str / Quantity(float) / Quantity(int) / Unit / Quantity(Decimal) / other object on both sides. "
+    "A case is distinct by (set, rendered source, rendered target) and counted non-trivial unless source and target render to the same string."
 )
 LEVEL_TEXT = (
     "proof, partial: the group laws, the soundness of the container arithmetic, 'code model = SI model on equal dimensions', the published-hartree "
     "bridges and the NIST consistency of the regenerated CODATA tables (to a tolerance per set: 1e-9, and 2e-8 for CODATA2014 kelvin pairs) are Lean "
-    "theorems; that pint + ureg.py implement the code model is differential (relative 1e-12); that every bridged factor the implementation returns "
-    "agrees with the physics of its own CODATA set is checked by the oracle at the same per-set tolerances. Three bridge defect classes are proved as "
-    "counter-examples and reported as known findings."
+    "theorems; they are restated for conversion_factor on texts and Quantity arguments (every text the modelled front end reads). Name resolution is "
+    "proved unambiguous over the registry's regenerated name set for all 8869 listed spellings except eight explicit collisions, whose resolution is "
+    "proved too. That pint + ureg.py + context.py implement the code model — now including tokenizing, tree building, name resolution and the argument "
+    "handling of conversion_factor, on the strings themselves — is differential (tree equality, relative 1e-12, error classes). parse(render e) = e is "
+    "not proved in general (names: proved; tokenizer/tree: kernel tests + differential). That every bridged factor the implementation returns agrees "
+    "with the physics of its own CODATA set is checked by the oracle at the per-set tolerances. Three bridge defect classes and the dropped factor of "
+    "'2 (3 m)' are proved as counter-examples and reported as known findings."
 )
 TECHNIQUE = "Lean 4 proof over an independent SI model and a hand-written model of the code + translator-regenerated CODATA tables + behavioural correspondence + Python oracle"
 
@@ -170,7 +206,99 @@ def gen_units_codata(ctx) -> None:
         f.write_text(body)
 
 
-TRANSLATORS = [gen_units_codata]
+# --------------------------------------------------------------------------------------
+# translator: the name set of the live registry -> lean/QcelVerif/Gen/UnitNames.lean
+# (pint's default_en.txt + the definitions of ureg.py:26-126, as a *fresh* PhysicalConstantsContext holds them)
+
+def _pack(s: str) -> int:
+    n = 1
+    for ch in s.encode("ascii"):
+        n = n * 256 + ch
+    return n
+
+
+def _bytes_lit(s: str) -> str:
+    return "[" + ",".join(str(c) for c in s.encode("ascii")) + "]"
+
+
+def _bst_defs(items, prefix, leaf_budget=120):
+    """balanced search tree over sorted (key, value) pairs, split into several defs (elaborator depth)"""
+    defs = []
+
+    def inline(a, b):
+        if a >= b:
+            return ".leaf"
+        m = (a + b) // 2
+        k, v = items[m]
+        return f"(.node {inline(a, m)} {k} {v} {inline(m + 1, b)})"
+
+    def build(lo, hi):
+        if lo >= hi:
+            return ".leaf"
+        if hi - lo > leaf_budget:
+            mid = (lo + hi) // 2
+            l, r = build(lo, mid), build(mid + 1, hi)
+            name = f"{prefix}_{len(defs)}"
+            k, v = items[mid]
+            defs.append(f"def {name} : Bst Nat := .node ({l}) {k} {v} ({r})")
+            return name
+        name = f"{prefix}_{len(defs)}"
+        defs.append(f"def {name} : Bst Nat := {inline(lo, hi)}")
+        return name
+
+    root = build(0, len(items))
+    return defs, root
+
+
+def registry_names(year: int):
+    """(unit key -> canonical name, [(prefix key, canonical prefix name)]) of a fresh context, ASCII keys only
+    (an ASCII text can neither equal nor start with a non-ASCII key)"""
+    import qcelemental as qcel
+
+    ureg = qcel.PhysicalConstantsContext(f"CODATA{year}").ureg
+    units = {k: d.name for k, d in ureg._units.items() if k.isascii() and d.name.isascii()}
+    prefixes = [(k, d.name) for k, d in ureg._prefixes.items() if k.isascii()]
+    if list(ureg._suffixes.items()) != [("", ""), ("s", "")]:
+        raise ValueError(f"pint suffix table is not ('', 's'): {ureg._suffixes!r}")
+    if not ureg.case_sensitive:
+        raise ValueError("registry is not case sensitive")
+    return units, prefixes
+
+
+def gen_unit_names(ctx) -> None:
+    units, prefixes = registry_names(2014)
+    u18, p18 = registry_names(2018)
+    if units != u18 or prefixes != p18:
+        raise ValueError("the registries of CODATA2014 and CODATA2018 do not define the same names")
+    if max(len(k) for k in list(units) + list(units.values())) >= 90:
+        raise ValueError("a unit name is too long for PStr.unpack")
+    items = sorted((_pack(k), _pack(v)) for k, v in units.items())
+    defs, root = _bst_defs(items, "unitTree")
+    lines = [
+        "import QcelVerif.Model.UnitText",
+        "/-! GENERATED by harness/c03.py:gen_unit_names from the registry a fresh PhysicalConstantsContext builds",
+        "(pint default_en.txt + qcelemental/physical_constants/ureg.py) — do not edit -/",
+        "namespace QcelVerif.Units.Gen",
+        "open QcelVerif QcelVerif.Units.Text",
+        "",
+    ]
+    lines += defs
+    lines.append(f"def unitTree : Bst Nat := {root}")
+    lines.append(f"def unitKeyCount : Nat := {len(items)}")
+    lines.append("def prefixTable : List (PStr.Bytes × PStr.Bytes) := [")
+    lines.append(",\n".join(f"  ({_bytes_lit(k)}, {_bytes_lit(v)})" for k, v in prefixes))
+    lines.append("]")
+    lines.append("def nameReg : NameReg := ⟨unitTree, prefixTable⟩")
+    lines.append("")
+    lines.append("end QcelVerif.Units.Gen")
+    body = "\n".join(lines) + "\n"
+    f = common.LEAN / "QcelVerif" / "Gen" / "UnitNames.lean"
+    f.parent.mkdir(exist_ok=True)
+    if not f.exists() or f.read_text() != body:
+        f.write_text(body)
+
+
+TRANSLATORS = [gen_units_codata, gen_unit_names]
 
 # --------------------------------------------------------------------------------------
 # the unit table, written a second time (independently of Lean) for rendering and for the oracle
@@ -279,7 +407,13 @@ PREFIX_BY_EXP = {e: (l, s) for e, l, s in PREFIXES}
 # NIST-named bases (the canonical pint name is one of `_nist_units`): hertz joule kelvin hartree electron_volt atomic_mass_unit
 NIST_BASE = {"hertz", "joule", "kelvin", "hartree", "eV", "amu"}
 # spellings pint reads as something else than <prefix><unit> (an exact unit name wins, or Python keywords): not generated
-BAD_SPELLINGS: set = {"nmi", "au", "dau", "hbar", "fm"}  # nautical_mile, astronomical_unit, deci-au, dirac_constant, fermi
+BAD_SPELLINGS: set = {"nmi", "au", "dau", "hbar", "fm", "amps", "damps", "hbars"}  # nautical_mile, astronomical_unit, deci-au, dirac_constant, fermi, atto-mps, deca-mps
+# the same eight, with the registry key pint's rule picks (Lean: Units.Text.collisionTable, theorem spelling_collisions)
+COLLISIONS = {
+    "fm": (-15, "meter", "fermi"), "nmi": (-9, "mile", "nautical_mile"), "au": (-18, "amu", "astronomical_unit"),
+    "dau": (1, "amu", "deciastronomical_unit"), "amps": (0, "ampere", "attometer_per_second"),
+    "damps": (-1, "ampere", "decameter_per_second"), "hbar": (2, "bar", "dirac_constant"), "hbars": (2, "bar", "dirac_constant"),
+}
 
 
 def spellings(p: int, b: str):
@@ -290,6 +424,17 @@ def spellings(p: int, b: str):
     pl, ps = PREFIX_BY_EXP[p]
     out = [pl + s for s in longs + syms] + [ps + s for s in syms] + [ps + longs[0]]
     return [s for s in out if s not in BAD_SPELLINGS]
+
+
+def all_forms(p: int, b: str):
+    """every way of writing 10^p * b that the Lean table `Units.Text.spellingsOf` lists, in its order:
+    {long prefix, symbol prefix} x {long names, their plurals, symbols}"""
+    _, _, longs, syms = BASES[b]
+    bases = longs + [l + "s" for l in longs] + syms
+    if p == 0:
+        return list(bases)
+    pl, ps = PREFIX_BY_EXP[p]
+    return [pl + n for n in bases] + [ps + n for n in bases]
 
 
 # --------------------------------------------------------------------------------------
@@ -331,14 +476,47 @@ def enc(t) -> str:
     return f"^ {t[2]} {enc(t[1])}"
 
 
+def _num_variant(s: str, rng) -> str:
+    """another way of writing the same decimal number (scientific notation, trailing point, leading zeros of the exponent)"""
+    r = rng.random()
+    if s.startswith("-") or r < 0.6:
+        return s
+    d = Decimal(s)
+    sign, digits, exp = d.as_tuple()
+    mant = "".join(map(str, digits))
+    if r < 0.7:
+        return f"{mant}e{exp}" if exp else f"{mant}e0"
+    if r < 0.78:
+        return f"{mant}E{exp:+d}" if exp else f"{mant}.0"
+    if r < 0.86 and len(mant) > 1:
+        return f"{mant[0]}.{mant[1:]}e{exp + len(mant) - 1}"
+    if r < 0.93 and exp == 0:
+        return mant + "."
+    if exp < 0 and -exp >= len(mant):
+        return "." + "0" * (-exp - len(mant)) + mant      # .5, .125
+    return s
+
+
+def _unit_variant(p: int, b: str, rng) -> str:
+    sp = rng.choice(spellings(p, b))
+    _, _, longs, _ = BASES[b]
+    if rng.random() < 0.12 and any(sp.endswith(l) for l in longs) and sp + "s" not in BAD_SPELLINGS:
+        sp += "s"                                          # plural of a long name
+    if rng.random() < 0.04:
+        sp = "(" + sp + ")"
+    return sp
+
+
 def render(t, rng=None) -> str:
-    """string for pint: left-associative * and /, parentheses only where the AST needs them"""
+    """string for pint: left-associative * and /, parentheses only where the AST needs them.  With `rng`: random spelling of
+    every unit (alias, symbol, plural), of every number, of the operators (`*`, juxtaposition, `**`/`^`, blanks) and of
+    negative exponents; without: one canonical text."""
     k = t[0]
     if k == "n":
-        return t[1]
+        return t[1] if rng is None else _num_variant(t[1], rng)
     if k == "u":
         sp = spellings(t[1], t[2])
-        return sp[0] if rng is None else rng.choice(sp)
+        return sp[0] if rng is None else _unit_variant(t[1], t[2], rng)
     if k in "*/":
         a, b = render(t[1], rng), render(t[2], rng)
         if t[2][0] in "*/":
@@ -346,13 +524,36 @@ def render(t, rng=None) -> str:
         if t[1][0] == "n" and t[1][1].startswith("-"):
             a = "(" + a + ")"
         op = k if rng is None else rng.choice([k, f" {k} "])
+        if k == "*" and rng is not None and b[0].isalpha() and t[2][0] in "u^" and rng.random() < 0.3:
+            # juxtaposition: only before a bare (power of a) unit name — a juxtaposed parenthesis binds to the operand before
+            # it whatever the pending operator, and a number juxtaposed to a quantity with its own factor drops that factor
+            # (block J exercises that class on purpose)
+            # (`1e2joule` is outside the model: Python reads `1e2j` as an imaginary literal — a blank is always written there)
+            op = "" if (t[1][0] == "n" and a[-1].isdigit() and b[0] not in "jJ" and rng.random() < 0.5) else " "
         return a + op + b
     a = render(t[1], rng)
     if t[1][0] != "u":
         a = "(" + a + ")"
-    op = "**" if rng is None else rng.choice(["**", "^"])
-    n = str(t[2]) if t[2] >= 0 else (f"({t[2]})" if rng is not None and rng.random() < 0.5 else str(t[2]))
+    op = "**" if rng is None else rng.choice(["**", "^", " ** ", "^ ", " **"])
+    if t[2] >= 0:
+        n = str(t[2]) if rng is None else rng.choice([str(t[2]), str(t[2]), f"({t[2]})", f"+{t[2]}"])
+    else:
+        n = str(t[2]) if rng is None else rng.choice([str(t[2]), f"({t[2]})", f"(- {-t[2]})"])
     return a + op + n
+
+
+def decorate_top(s: str, rng) -> str:
+    """blanks around the whole text / one more pair of parentheses"""
+    r = rng.random()
+    if r < 0.06:
+        return " " + s
+    if r < 0.12:
+        return s + " "
+    if r < 0.15:
+        return "  " + s + "  "
+    if r < 0.19:
+        return "(" + s + ")"
+    return s
 
 
 def py_dim(t):
@@ -524,15 +725,23 @@ def relerr(x: float, exact: Fraction) -> Fraction:
 
 
 def parse_model(line: str):
-    """'impl ok 1/3;si err Dimensionality;phys ok 2' -> dict name -> ('ok', Fraction) | ('err', cls)"""
+    """'impl ok 1/3;si err Dimensionality;phys ok 2;pa <expr>;pb <expr>;ia <expr>;ib <expr>'
+    -> dict: impl/si/phys -> ('ok', Fraction) | ('err', cls); pa/pb/ia/ib -> text (prefix notation of the parsed expression)"""
     out = {}
     for part in line.split(";"):
-        name, kind, val = part.split(" ", 2)
-        out[name] = ("ok", Fraction(val)) if kind == "ok" else ("err", val)
+        name, rest = part.split(" ", 1)
+        if name in ("impl", "si", "phys"):
+            kind, val = rest.split(" ", 1)
+            out[name] = ("ok", Fraction(val)) if kind == "ok" else ("err", val)
+        else:
+            out[name] = rest
     return out
 
 
 ERRMAP = {"DimensionalityError": "Dimensionality", "UndefinedUnitError": "UndefinedUnit"}
+# exception classes of the text front end (ureg.parse_expression) and of conversion_factor's argument handling
+TEXT_ERRMAP = dict(ERRMAP, DefinitionSyntaxError="Syntax", TokenError="Token", AssertionError="Assertion",
+                   TypeError="TypeError", AttributeError="AttributeError")
 
 # --------------------------------------------------------------------------------------
 # the corpus
@@ -590,7 +799,7 @@ BRIDGED = {
 }
 # single NIST units by which "conversions to or from hartree reproduce the published relationship" is checked
 HARTREE_PUBLISHED = {
-    enc(U("hertz")): "hertz", enc(INV(U("meter"))): "invm", enc(U("gram", 3)): "kg", enc(U("kelvin")): "kelvin", enc(U("amu")): "amu",
+    enc(U("hertz")): "hertz", enc(INV(U("meter"))): "invm", enc(POW(U("meter"), -1)): "invm", enc(U("gram", 3)): "kg", enc(U("kelvin")): "kelvin", enc(U("amu")): "amu",
 }
 CLASS_DIM = {k: py_dim(v[0]) for k, v in SEEDS.items()}
 
@@ -605,6 +814,8 @@ REL_REACHABLE = [(x, y) for x in ("ev", "hartree", "joule") for y in ("hertz", "
     + [(x, "hartree") for x in ("hertz", "invm", "kg", "amu", "kelvin")]
 REL_BARE_TARGET = {"hertz": U("hertz"), "invm": INV(U("meter")), "kg": U("gram", 3), "kelvin": U("kelvin"), "hartree": U("hartree")}
 INVM_SPELLINGS = ["1/m", "1/meter", "1 / metre", "m**-1", "meter^-1", "m**(-1)", "1/(m)"]
+# the tree each of them is (the Lean front end must read exactly this)
+INVM_AST = {sp: (POW(U("meter"), -1) if ("**" in sp or "^" in sp) else INV(U("meter"))) for sp in INVM_SPELLINGS}
 
 
 def rel_targets(y):
@@ -629,16 +840,19 @@ def rel_source_forms(rng, x):
     """(AST, string) forms of the source that keep the relationship of X selected: every spelling of the bare unit, numeric
     prefactors in the three ways context.py:278-331 accepts them, and (energies) the per-mole form that reaches the same literal"""
     t = REL_SOURCE[x]
-    sps = INVM_SPELLINGS if x == "invm" else spellings(t[1], t[2])
-    forms = [(t, sp) for sp in sps]
+    if x == "invm":
+        pairs = [(INVM_AST[sp], sp) for sp in INVM_SPELLINGS]
+    else:
+        pairs = [(t, sp) for sp in spellings(t[1], t[2])]
+    forms = list(pairs)
     for n in rng.sample(DEC_NUMS, 2):
-        sp = rng.choice(sps)
-        tn = MUL(N(n), t)
+        tx, sp = rng.choice(pairs)
+        tn = MUL(N(n), tx)
         forms += [(tn, f"{n}*{sp}" if x != "invm" else f"{n}*({sp})"), (tn, f"{n} * ({sp})")]
         if x != "invm":
             forms.append((tn, f"{n} {sp}"))
     if x in ("ev", "hartree", "joule"):
-        forms += [(DIV(t, U("mole")), rng.choice(sps) + rng.choice(["/mol", " / mole", "/mole"]))]
+        forms += [(DIV(t, U("mole")), rng.choice(pairs)[1] + rng.choice(["/mol", " / mole", "/mole"]))]
     return forms
 DEC_NUMS = ["2", "3", "0.5", "2.5", "10", "1e-3", "1.25e2", "7", "0.125", "4.184", "1000", "1e6"]
 
@@ -826,6 +1040,74 @@ def classify_known(K, year, ta, tb, res, magree):
     return None
 
 
+DROP_KIND = "implicit_mul_drops_factor"
+_DROP_RE = None
+
+
+def parse_enc(text: str):
+    """inverse of enc(): prefix notation -> AST (numbers as exact fraction strings are kept as Fractions)"""
+    toks = text.split(" ")
+
+    def go(i):
+        k = toks[i]
+        if k == "n":
+            return ("nq", Fraction(toks[i + 1])), i + 2
+        if k == "u":
+            return ("u", int(toks[i + 1]), toks[i + 2]), i + 3
+        if k in "*/":
+            a, j = go(i + 1)
+            b, j = go(j)
+            return (k, a, b), j
+        if k == "^":
+            a, j = go(i + 2)
+            return ("^", a, int(toks[i + 1])), j
+        raise ValueError(text)
+
+    t, j = go(0)
+    if j != len(toks):
+        raise ValueError(text)
+    return t
+
+
+def mag_q(K, t) -> Fraction:
+    """py_mag for trees read back from the model (numeric leaves are Fractions)"""
+    k = t[0]
+    if k == "nq":
+        return t[1]
+    if k == "u":
+        return Fraction(10) ** t[1] * BASES[t[2]][1](K)
+    if k == "*":
+        return mag_q(K, t[1]) * mag_q(K, t[2])
+    if k == "/":
+        return mag_q(K, t[1]) / mag_q(K, t[2])
+    return mag_q(K, t[1]) ** t[2]
+
+
+def classify_drop(f: Finding) -> bool:
+    """the dropped-factor class, narrowly: (1) one of the two texts has a number (or `)`) directly in front of `(`;
+    (2) the Lean model of parse_expression predicts the returned value to 1e-12; (3) that value is the SI ratio of the
+    expressions pint builds (model's `ia`/`ib`: the parenthesised quantity with its numeric factors removed), i.e. the only
+    thing wrong is the dropped factor."""
+    import re
+
+    c = f.case
+    try:
+        if c.get("model_agrees") is not True or not c.get("ia") or not c.get("ib"):
+            return False
+        if not any(re.search(r"[0-9.)]\s*\(", str(c[k])) for k in ("sa", "sb")):
+            return False
+        if (c["ia"], c["ib"]) == (enc(_tup(c["a"])), enc(_tup(c["b"]))):
+            return False
+        obs = f.observed.split(" ", 1)
+        if obs[0] != "ok":
+            return False
+        K = KK(c["year"])
+        want = mag_q(K, parse_enc(c["ia"])) / mag_q(K, parse_enc(c["ib"]))
+        return relerr(float(obs[1]), want) <= SI_TOL
+    except Exception:
+        return False
+
+
 def strip_prefix(t, b, p):
     if t[0] == "u":
         return U(b, 0) if (t[1], t[2]) == (p, b) else t
@@ -854,6 +1136,11 @@ def check_conversion(out: Outcome, block, year, ta, tb, sa, sb, model_line, res=
             out.mismatches.append(Finding("mismatch:driver-rejects", case, observed=canon(res), expected=model_line))
         else:
             model = parse_model(model_line)
+            # the text, read by the Lean front end, is the expression the generator rendered (exactly, as a tree)
+            if model.get("pa") != enc(ta) or model.get("pb") != enc(tb):
+                out.mismatches.append(Finding("mismatch:parse", case, observed=f"{model.get('pa')} | {model.get('pb')}", expected=f"{enc(ta)} | {enc(tb)}",
+                                              detail="Lean text front end (Model/UnitText.lean) vs the expression the generator wrote down"))
+            out.count("text:parsed-by-model")
     da, db = py_dim(ta), py_dim(tb)
     na, nb = NODE_OF_DIM.get(da), NODE_OF_DIM.get(db)
     clean = True
@@ -873,7 +1160,18 @@ def check_conversion(out: Outcome, block, year, ta, tb, sa, sb, model_line, res=
         if res[0] != "ok":
             viol("oracle:si_ratio", f"{float(exact)!r}", f"same dimension but raised {res[1]}")
         elif relerr(res[1], exact) > SI_TOL:
-            viol("oracle:si_ratio", f"{float(exact)!r}", "factor is not the ratio of the SI magnitudes (relative 1e-12)")
+            magree = model_agrees(res, model)
+            c2 = dict(case)
+            c2["model_agrees"] = magree
+            c2["ia"], c2["ib"] = (model or {}).get("ia"), (model or {}).get("ib")
+            f = Finding(DROP_KIND, c2, observed=canon(res), expected=f"{float(exact)!r}",
+                        detail="a number juxtaposed to a parenthesised quantity: the quantity's own numeric factor is dropped (not linear in the prefactor)")
+            if classify_drop(f):
+                out.count("known:" + DROP_KIND)
+                clean = False
+                out.violations.append(f)
+            else:
+                viol("oracle:si_ratio", f"{float(exact)!r}", "factor is not the ratio of the SI magnitudes (relative 1e-12)")
         spec = ("ok", exact)
     elif na is not None and nb is not None:
         out.count(f"class:bridge {na}->{nb}")
@@ -940,17 +1238,20 @@ def _show(r):
 
 # --------------------------------------------------------------------------------------
 
-def conv_line(year, ta, tb):
-    return f"conv|{year}|{enc(ta)}|{enc(tb)}"
+def conv_line(year, sa, sb):
+    """the two TEXTS go to the Lean model (Model/UnitText.lean parses them); `|` and newlines are outside its alphabet"""
+    assert "|" not in sa and "|" not in sb and "\n" not in sa + sb
+    return f"convs|{year}|s:{sa}|s:{sb}"
 
 
 def run(ctx: Ctx) -> Outcome:
     out = Outcome()
     rng = ctx.rng
     _DEV.clear()
-    cases = list(gen_cases(ctx))
+    cases = [(blk, y, ta, tb, decorate_top(sa, rng), decorate_top(sb, rng)) for (blk, y, ta, tb, sa, sb) in gen_cases(ctx)]
+    cases += list(drop_cases(ctx))
     triples = list(gen_triples(ctx))
-    lines = [conv_line(y, a, b) for (_, y, a, b, _, _) in cases]
+    lines = [conv_line(y, sa, sb) for (_, y, _, _, sa, sb) in cases]
     model = [None] * len(lines)
     if ctx.model_available:
         model = ctx.run_model(DRIVER, lines)
@@ -965,6 +1266,9 @@ def run(ctx: Ctx) -> Outcome:
     relational(ctx, out, cases, results)
     triple_checks(ctx, out, triples)
     typed_routes(ctx, out)
+    name_blocks(ctx, out)
+    malformed_block(ctx, out)
+    arg_block(ctx, out)
     out.exhaustive = False
     out.notes.append("blocks P, S(pairs of seeds), B are exhaustive over their stated corpus; decorations, spellings, Bd, U, T are sampled from VERIF_SEED")
     out.notes.append("tolerances: tie 1e-12, same-dimension oracle 1e-12, published hartree relationships 1e-9, relational products 1e-11; bridged physics per CODATA set: "
@@ -988,7 +1292,7 @@ def relational(ctx: Ctx, out: Outcome, cases, results):
             if (y, sb, sa) not in results and results[(y, sa, sb)][0][0] == "ok" and results[(y, sa, sb)][1] and py_dim(ta) != py_dim(tb)]
     rev_model = {}
     if ctx.model_available and need:
-        for (y, ta, tb, sa, sb), ml in zip(need, ctx.run_model(DRIVER, [conv_line(y, ta, tb) for (y, ta, tb, _, _) in need])):
+        for (y, ta, tb, sa, sb), ml in zip(need, ctx.run_model(DRIVER, [conv_line(y, sa, sb) for (y, _, _, sa, sb) in need])):
             rev_model[(y, sa, sb)] = ml
     for (block, year, ta, tb, sa, sb) in chosen:
         res, clean, _, _ = results[(year, sa, sb)]
@@ -1154,6 +1458,255 @@ def typed_routes(ctx: Ctx, out: Outcome):
 
 
 # --------------------------------------------------------------------------------------
+# text-level blocks (Model/UnitText.lean): names, collisions, malformed texts, the dropped factor, argument types
+
+def impl_get_name(year, name):
+    try:
+        return ("key", impl_ctx(year).ureg.get_name(name))
+    except Exception as e:  # noqa
+        return ("err", TEXT_ERRMAP.get(type(e).__name__, type(e).__name__))
+
+
+def name_blocks(ctx: Ctx, out: Outcome):
+    """SP: the spelling table of the Lean model is the one this file generates from; N: every listed spelling (sampled in the
+    quick tier) resolves, on the implementation, to the registry key the Lean resolver computes, and converts to the bare unit
+    by the SI ratio; NC: the eight collisions are resolved by the implementation the way the Lean rule says"""
+    rng = ctx.rng
+    ps = [0] + [p for p, _, _ in PREFIXES]
+    if ctx.model_available:
+        keys = [(p, b) for b in BASES for p in ps]
+        got = ctx.run_model(DRIVER, [f"spell|{p}|{b}" for p, b in keys])
+        for (p, b), g in zip(keys, got):
+            out.evaluations += 1
+            out.count("text:spelling-table-row")
+            if g != ",".join(all_forms(p, b)):
+                out.mismatches.append(Finding("mismatch:spelling_tables", {"block": "SP", "p": p, "base": b}, observed=g, expected=",".join(all_forms(p, b)),
+                                              detail="Lean Units.Text.spellingsOf vs harness all_forms"))
+    forms = [(p, b, n) for b in BASES for p in ps for n in all_forms(p, b)]
+    good = [f for f in forms if f[2] not in COLLISIONS]
+    if not ctx.thorough:
+        good = rng.sample(good, 1500)
+    year = 2014
+    lines = [f"res|{n}" for _, _, n in good] + [f"res|{n}" for n in COLLISIONS]
+    ml = ctx.run_model(DRIVER, lines) if ctx.model_available else [None] * len(lines)
+    for (p, b, n), m in zip(good, ml[:len(good)]):
+        out.evaluations += 1
+        out.count("text:name-resolution")
+        out.nontrivial(("name", n))
+        g = impl_get_name(year, n)
+        case = {"block": "N", "year": year, "p": p, "base": b, "name": n}
+        if m is not None:
+            want = f"key {g[1]}" if g[0] == "key" else f"err {g[1]}"
+            if m.split(";")[0] != want or m.split(";")[1] != f"unit {p} {b}":
+                out.mismatches.append(Finding("mismatch:name_resolution", case, observed=want, expected=m, detail="ureg.get_name vs Lean resolveKey / resolveUnit"))
+        # the spelled name denotes 10^p * b
+        bare = spellings(0, b)[0]
+        r = call_impl(year, n, bare)
+        if r[0] != "ok" or relerr(r[1], Fraction(10) ** p) > SI_TOL:
+            out.violations.append(Finding("oracle:spelling", case, observed=canon(r), expected=repr(float(Fraction(10) ** p)),
+                                          detail=f"conversion_factor({n!r}, {bare!r}) is not the SI prefix"))
+    for (n, (p, b, key)), m in zip(COLLISIONS.items(), ml[len(good):]):
+        out.evaluations += 1
+        out.count("text:collision-exercised")
+        g = impl_get_name(year, n)
+        case = {"block": "NC", "year": year, "p": p, "base": b, "name": n}
+        if m is not None and (m != f"key {key};none" or g != ("key", key)):
+            out.mismatches.append(Finding("mismatch:collision", case, observed=repr(g), expected=m, detail=f"collision table says the rule picks {key}"))
+        r = call_impl(year, n, key)
+        if r[0] != "ok" or relerr(r[1], Fraction(1)) > SI_TOL:
+            out.violations.append(Finding("oracle:collision_denotes_registry_unit", case, observed=canon(r), expected="1.0",
+                                          detail=f"{n!r} should denote the registry unit {key!r} (exact name before prefix+name)"))
+    out.notes.append("collisions (a listed spelling that pint's rule resolves to another registry unit; modelling matter, the text denotes what the "
+                     "registry says): " + ", ".join(f"{n} -> {k}" for n, (_, _, k) in COLLISIONS.items()))
+
+
+UNKNOWN_NAMES = ["foo", "quux", "meterz", "xJoule", "kcalz", "Hzz", "bohrr", "_m", "m_2", "electronvolt_", "kkm", "angstrm"]
+DANGLING = [("{}*", None), ("{} *", None), ("{}/", None), ("{} **", None), ("{}^", None), ("*{}", None), ("/ {}", None), ("**{}", None),
+            ("{} * / second", None), ("{}**", None), ("({}", None), ("{})", None), ("(({})", None), ("({}))", None), ("{} ()", None), ("()", None),
+            ("({}*)", None), ("(*{})", None), ("{}**()", None), ("{}**(-)", None), ("{}) (", None), ("-", None), ("  ", None), ("{} * * 2", None)]
+
+
+def malformed_cases(ctx: Ctx):
+    """texts the front end must refuse: unknown names inside otherwise valid expressions, dangling / doubled operators, unbalanced
+    and empty parentheses — on the source side, the target side or both (the source is read first)"""
+    rng = ctx.rng
+    seeds = [t for v in SEEDS.values() for t in v]
+    for _ in range(ctx.scale(700, 6000)):
+        year = rng.choice((2014, 2018))
+        t = rng.choice(seeds)
+        good = render(t, rng)
+        other = render(rng.choice(seeds), rng)
+        r = rng.random()
+        if r < 0.45:
+            # an unknown name in place of one unit, or multiplied in
+            bad = rng.choice(UNKNOWN_NAMES)
+            lv = leaves(t)
+            if lv and rng.random() < 0.6:
+                victim = rng.choice(lv)
+                vs = spellings(victim[1], victim[2])[0]
+                g0 = render(t)
+                badtext = g0.replace(vs, bad, 1) if vs in g0 else bad + "*" + g0
+            else:
+                badtext = rng.choice([f"{good}*{bad}", f"{bad} {good}", f"{good}/{bad}", bad, f"2 {bad}", f"{bad}**2"])
+        else:
+            badtext = rng.choice(DANGLING)[0].format(good)
+        side = rng.random()
+        if side < 0.45:
+            yield year, badtext, other
+        elif side < 0.9:
+            yield year, other, badtext
+        else:
+            yield year, badtext, rng.choice(DANGLING)[0].format(other)
+
+
+def malformed_block(ctx: Ctx, out: Outcome, cases=None):
+    cases = list(malformed_cases(ctx)) if cases is None else cases
+    cases = [c for c in cases if "|" not in c[1] + c[2]]
+    ml = ctx.run_model(DRIVER, [conv_line(y, a, b) for y, a, b in cases]) if ctx.model_available else [None] * len(cases)
+    for (year, sa, sb), m in zip(cases, ml):
+        res = call_impl(year, sa, sb)
+        out.evaluations += 1
+        out.count("block:X")
+        out.nontrivial((year, sa, sb))
+        case = {"block": "X", "year": year, "sa": sa, "sb": sb}
+        cls = TEXT_ERRMAP.get(res[1], res[1]) if res[0] == "err" else None
+        out.count("malformed:impl " + (cls or "ok"))
+        if m is None:
+            continue
+        mi = parse_model(m)["impl"]
+        if mi[0] == "err" and mi[1] == "Unsupported":
+            out.count("malformed:outside-model")     # not a claim of the model (never happens with the shapes above)
+            out.mismatches.append(Finding("mismatch:malformed_outside_model", case, observed=canon(res), expected=m))
+            continue
+        if res[0] == "ok":
+            if mi[0] != "ok" or relerr(res[1], mi[1]) > TIE_TOL:
+                out.mismatches.append(Finding("mismatch:malformed", case, observed=canon(res), expected=_show(mi), detail="implementation accepts a text the model refuses"))
+        elif mi != ("err", cls):
+            out.mismatches.append(Finding("mismatch:malformed", case, observed=canon(res), expected=_show(mi), detail="error class: implementation vs Lean text front end"))
+
+
+def drop_cases(ctx: Ctx):
+    """block J: `<number> (<expression with its own numeric factor>)` and relatives"""
+    rng = ctx.rng
+    for _ in range(ctx.scale(150, 1500)):
+        year = rng.choice((2014, 2018))
+        cls = rng.choice(list(SEEDS))
+        ta0, tb = rng.choice(SEEDS[cls]), rng.choice(SEEDS[cls])
+        p, q = rng.choice(DEC_NUMS), rng.choice([d for d in DEC_NUMS if d != "1"])
+        inner_s = render(ta0, rng)
+        form = rng.randrange(5)
+        if form == 0:
+            ta, sa = MUL(N(p), MUL(N(q), ta0)), f"{p} ({q}*({inner_s}))"
+        elif form == 1:
+            ta, sa = MUL(N(p), MUL(N(q), ta0)), f"{p}({q} * ({inner_s}))"
+        elif form == 2:
+            ta, sa = MUL(N(p), DIV(ta0, N(q))), f"{p} (({inner_s})/{q})"
+        elif form == 3:
+            ta, sa = MUL(MUL(N(p), MUL(N(q), ta0)), U("second")), f"{p} ({q}*({inner_s})) s"
+            tb = MUL(tb, U("second"))
+        else:
+            ta, sa = MUL(N(p), MUL(N(q), ta0)), f"{p} * ({q}*({inner_s}))"      # explicit `*`: correct
+        yield ("J", year, ta, tb, sa, render(tb, rng))
+
+
+def arg_cases(ctx: Ctx):
+    """block A: conversion_factor on the argument types it is given: str, Quantity (int / float magnitude), Quantity with a
+    Decimal magnitude, Unit, and objects that are none of these"""
+    rng = ctx.rng
+    kinds = ["s", "q", "q", "qi", "u", "d", "o"]
+    for _ in range(ctx.scale(500, 5000)):
+        year = rng.choice((2014, 2018))
+        cls = rng.choice(list(SEEDS))
+        ta, tb = rng.choice(SEEDS[cls]), rng.choice(SEEDS[cls])
+        if rng.random() < 0.3:
+            ta = MUL(N(rng.choice(DEC_NUMS)), ta)
+        if rng.random() < 0.2:
+            tb = MUL(N(rng.choice(DEC_NUMS)), tb)
+        yield (year, rng.choice(kinds), rng.choice(DEC_NUMS), ta, render(ta, rng), rng.choice(kinds), rng.choice(DEC_NUMS), tb, render(tb, rng))
+
+
+OTHER_OBJECTS = [Decimal("2"), 7, None, ("meter",), b"meter"]
+
+
+def _mk_arg(c, kind, p, s, rng):
+    """(python object handed to conversion_factor, model encoding, AST the argument stands for or None)"""
+    if kind == "s":
+        return s, f"s:{s}"
+    if kind == "q":
+        return float(p) * c.ureg.parse_expression(s), f"q:{Fraction(Decimal(p))}:{s}"
+    if kind == "qi":
+        n = rng.choice([2, 3, 10])
+        return n * c.ureg.parse_expression(s), f"q:{n}:{s}"
+    if kind == "u":
+        return c.ureg.parse_expression(s).units, f"u:{s}"
+    if kind == "d":
+        return c.ureg.Quantity(Decimal(p), c.ureg.parse_expression(s).units), f"d:{s}"
+    return rng.choice(OTHER_OBJECTS), "o"
+
+
+def arg_block(ctx: Ctx, out: Outcome, cases=None):
+    rng = ctx.rng
+    cases = list(arg_cases(ctx)) if cases is None else cases
+    objs, lines, kept = [], [], []
+    for cs in cases:
+        (year, ka, p, ta, sa, kb, q, tb, sb) = cs
+        c = impl_ctx(year)
+        try:
+            with warnings.catch_warnings():
+                warnings.simplefilter("ignore")
+                oa, ea = _mk_arg(c, ka, p, sa, rng)
+                ob, eb = _mk_arg(c, kb, q, sb, rng)
+        except Exception as e:  # noqa — the texts are valid expressions of the corpus: the registry must read them
+            out.evaluations += 1
+            out.violations.append(Finding("oracle:argument_types", {"block": "A", "year": year, "ka": ka, "p": p, "a": ta, "sa": sa, "kb": kb, "q": q, "b": tb, "sb": sb},
+                                          observed=f"err {type(e).__name__}", expected="a Quantity", detail="ureg.parse_expression refused a text of the corpus"))
+            continue
+        kept.append(cs)
+        objs.append((oa, ob, ea, eb))
+        lines.append(f"convs|{year}|{ea}|{eb}")
+    cases = kept
+    ml = ctx.run_model(DRIVER, lines) if ctx.model_available else [None] * len(lines)
+    for (year, ka, p, ta, sa, kb, q, tb, sb), (oa, ob, ea, eb), m in zip(cases, objs, ml):
+        res = call_impl(year, oa, ob)
+        out.evaluations += 1
+        out.count(f"route:args {ka}/{kb}")
+        out.nontrivial((year, ea, eb))
+        case = {"block": "A", "year": year, "ka": ka, "p": p, "a": ta, "sa": sa, "kb": kb, "q": q, "b": tb, "sb": sb, "ea": ea, "eb": eb}
+        # oracle (the property's clauses on unit-like arguments): the factor is the SI ratio, linear in the Quantity magnitudes
+        if ka in ("s", "q", "qi", "u") and kb in ("s", "q", "qi", "u"):
+            K = KK(year)
+
+            def mag_of(kind, enc_, t):
+                if kind == "s":
+                    return py_mag(K, t)
+                if kind in ("q", "qi"):
+                    return Fraction(enc_.split(":")[1]) * py_mag(K, t)
+                return py_mag(K, strip_nums(t))
+            exact = mag_of(ka, ea, ta) / mag_of(kb, eb, tb)
+            if res[0] != "ok" or relerr(res[1], exact) > SI_TOL * 10:
+                out.violations.append(Finding("oracle:argument_types", case, observed=canon(res), expected=repr(float(exact)),
+                                              detail=f"argument kinds {ka}/{kb}: not the SI ratio times the Quantity magnitudes"))
+        if m is None:
+            continue
+        mi = parse_model(m)["impl"]
+        if res[0] == "ok":
+            if mi[0] != "ok" or relerr(res[1], mi[1]) > TIE_TOL:
+                out.mismatches.append(Finding("mismatch:argument_types", case, observed=canon(res), expected=_show(mi), detail="conversion_factor vs Lean convArgs"))
+        elif mi != ("err", TEXT_ERRMAP.get(res[1], res[1])):
+            out.mismatches.append(Finding("mismatch:argument_types", case, observed=canon(res), expected=_show(mi), detail="error class: conversion_factor vs Lean convArgs"))
+
+
+def strip_nums(t):
+    if t[0] == "n":
+        return N("1")
+    if t[0] == "u":
+        return t
+    if t[0] in "*/":
+        return (t[0], strip_nums(t[1]), strip_nums(t[2]))
+    return (t[0], strip_nums(t[1]), t[2])
+
+
+# --------------------------------------------------------------------------------------
 
 def _tup(x):
     return tuple(_tup(y) for y in x) if isinstance(x, list) else x
@@ -1168,8 +1721,17 @@ def replay(ctx: Ctx, case) -> Outcome:
     if block in ("Q", "D", "R", "F"):
         typed_routes(ctx, out)
         return out
+    if block in ("N", "NC", "SP"):
+        name_blocks(ctx, out)
+        return out
+    if block == "X":
+        malformed_block(ctx, out, [(case["year"], case["sa"], case["sb"])])
+        return out
+    if block == "A":
+        arg_block(ctx, out, [(case["year"], case["ka"], case["p"], _tup(case["a"]), case["sa"], case["kb"], case["q"], _tup(case["b"]), case["sb"])])
+        return out
     year, ta, tb, sa, sb = case["year"], _tup(case["a"]), _tup(case["b"]), case["sa"], case["sb"]
-    ml = ctx.run_model(DRIVER, [conv_line(year, ta, tb)])[0] if ctx.model_available else None
+    ml = ctx.run_model(DRIVER, [conv_line(year, sa, sb)])[0] if ctx.model_available else None
     res, clean = check_conversion(out, block, year, ta, tb, sa, sb, ml)
     cases = [(block, year, ta, tb, sa, sb)]
     if clean and res[0] == "ok":
@@ -1185,6 +1747,8 @@ def replay(ctx: Ctx, case) -> Outcome:
 def known_predicate(finding: Finding, entry) -> bool:
     """A finding carries a known kind only if classify_known put it there; re-derive it from the recorded case."""
     c = finding.case
+    if finding.kind == DROP_KIND or entry.get("kind") == DROP_KIND:
+        return finding.kind == entry.get("kind") == DROP_KIND and classify_drop(finding)
     try:
         year, ta, tb = c["year"], _tup(c["a"]), _tup(c["b"])
         obs = finding.observed.split(" ", 1)
